@@ -42,6 +42,50 @@ Theorem self_values_add_up : forall (h : N -> N -> N) (nt : nat) (ss : list samp
 Proof. exact self_sum_is_weight. Qed.
 Print Assumptions self_values_add_up.
 
+(* What survives a collision of node ids: for EVERY hash (no hypothesis) the rows under the root add up to the sum of
+   all sample values of the profile (the level is part of the node id, so a level-1 frame never shares its node with
+   a deeper one) -- and by self_values_add_up so do the self values. *)
+Theorem root_sum_any_hash : forall (h : N -> N -> N) (na : N) (nt : nat) (ss : list sample) (k : nat),
+  (k < nt)%nat -> wrap64 (child_tot k (stored_tree h na nt ss) 0%N) = wrap64 (full_weight k ss).
+Proof. exact PprofProofs.root_sum_any_hash. Qed.
+Print Assumptions root_sum_any_hash.
+
+(* ... but the hypothesis of tree_conserves cannot be dropped, under the REAL hash (city.CH64 on the 16-byte buffer,
+   modelled exactly by city16): for the two-sample profile collision_profile (main.p71 -> main.f42920d41cc6b47, value 3;
+   main.p247 -> main.f56bc77c3d4dbf7, value 5; function ids = city.CH64 of the names) two frames with different parents
+   get one node id, and a stored node's total differs from its self value plus its children's totals.  Replayed on the
+   real code by the corpus case node-id-collision-in-profile (finding node-id-collision-in-profile). *)
+Theorem tree_conserves_needs_hypothesis :
+  ~ parent_determined city16 (triples city16 collision_profile) /\
+  let t := post_process city16 1 collision_profile in
+  length t = 3%nat /\
+  exists n, In n t /\ snd (val_at 0 n) <> wrap64 (fst (val_at 0 n) + child_tot 0 t (n_id n)).
+Proof. exact collision_profile_breaks. Qed.
+Print Assumptions tree_conserves_needs_hypothesis.
+
+(* a collision that keeps the parent (two functions under one parent, second witness): the hypothesis holds, the tree
+   conserves, and the two frames are one stored row carrying the first function's id *)
+Example same_parent_collision :
+  parent_determined city16 (triples city16 same_parent_collision_profile) /\
+  map (fun n => (n_fn n, n_vals n)) (post_process city16 1 same_parent_collision_profile) =
+  [ (coll_p0, [(0, 8)]); (coll_g1, [(8, 8)]) ].
+Proof. exact same_parent_collision_merges. Qed.
+
+(* The 511-level clamp.  The level field of a node id is min(depth, 511): beyond level 511 the ids stop carrying the
+   depth (deep_levels_clamped) but the walk goes on: for every hash, every number of frames (no bound), every frame of
+   every sample has its node in the stored tree -- nothing is truncated; with tree_conserves (no bound on the depth
+   either) and self_values_add_up the leaf of a 600-frame stack receives its self value like any other. *)
+Theorem node_level_clamped : forall (h : N -> N -> N) (p f d : N),
+  level_of (node_id h p f d) = N.min d depth_clamp /\
+  ((depth_clamp <= d)%N -> node_id h p f d = node_id h p f depth_clamp).
+Proof. intros h p f d. split; [apply node_level|apply deep_levels_clamped]. Qed.
+Print Assumptions node_level_clamped.
+
+Theorem every_frame_stored : forall (h : N -> N -> N) (nt : nat) (ss : list sample) (s : sample) (y : N),
+  In s ss -> In y (sample_ids h s) -> In y (map n_id (post_process h nt ss)).
+Proof. exact PprofProofs.every_frame_stored. Qed.
+Print Assumptions every_frame_stored.
+
 (* the hypothesis follows from injectivity of getNodeId on the occurring triples *)
 Theorem tree_conserves_injective : forall (h : N -> N -> N) (nt : nat) (ss : list sample) (k : nat),
   (k < nt)%nat -> node_id_injective_on h (triples h ss) ->
